@@ -99,7 +99,7 @@ def model_int(model, t, signed=False):
 
 
 def decide(name, assumptions, violation, session=None, extract=None, timeout_s=120, reach_goals=None,
-           second=None, bounds=None, sample_extract=None):
+           second=None, bounds=None, sample_extract=None, unwind_is_violation=False, abstract_fp=False, engines=('z3',)):
     """Standard obligation: reachability twin(s) must be sat, violation and side obligations must be unsat.
 
     extract(model) -> json-able counterexample.  Returns a result dict.
@@ -134,6 +134,11 @@ def decide(name, assumptions, violation, session=None, extract=None, timeout_s=1
                 m = r['model']
                 hit = [(k, d) for k, d, v in side if z3.is_true(m.eval(v if is_sym(v) else z3.BoolVal(v), model_completion=True))]
                 kinds = {k for k, _ in hit}
+                if kinds and kinds <= {'unwind'} and unwind_is_violation:
+                    res['status'] = VIOLATED
+                    res['cex'] = extract(m) if extract else {}
+                    res['cex_kind'] = 'unwind:' + ';'.join(sorted(d for _, d in hit))[:300]
+                    return res
                 if kinds and kinds <= {'unwind', 'pyint-overflow'}:
                     res['status'] = INCONCLUSIVE
                     res['error'] = f'bound too small / encoding overflow: {hit[:3]}'
@@ -147,8 +152,23 @@ def decide(name, assumptions, violation, session=None, extract=None, timeout_s=1
                 res['error'] = f'side obligations: {r["result"]} {r.get("reason", "")}'
                 return res
     q = smt.Query(f'{name}/violation', assumptions, violation, 'violation')
-    r = smt.solve(q, timeout_s)
-    res['queries'].append({'q': 'violation', 'result': r['result'], 'time_s': r['time_s']})
+    r = None
+    if abstract_fp:
+        from .fpabs import abstract_fp as _abs
+        memo = {}
+        qa = smt.Query(f'{name}/violation-abstract', [_abs(a, memo) if is_sym(a) else a for a in assumptions],
+                       _abs(violation, memo) if is_sym(violation) else violation, 'violation')
+        ra = smt.solve(qa, min(timeout_s, 60))
+        res['queries'].append({'q': 'violation (FP operators as uninterpreted functions)', 'result': ra['result'], 'time_s': ra['time_s']})
+        if ra['result'] == 'unsat':
+            r = ra
+            q = qa
+    if r is None:
+        for eng in engines:
+            r = smt.solve(q, timeout_s, engine=eng)
+            res['queries'].append({'q': f'violation@{eng}' if eng != 'z3' else 'violation', 'result': r['result'], 'time_s': r['time_s']})
+            if r['result'] in ('sat', 'unsat'):
+                break
     if r['result'] == 'unsat':
         res['status'] = HOLDS
         if second:
